@@ -23,6 +23,8 @@ EXPLANATION = (
 )
 EXPLANATION += ' R04.8: the whole-line rewrite of an inlined call is refused for a second call in the same logical line.'
 EXPLANATION += " R04.9: in the anchored modules and the shared text utilities no source text is cut with str.splitlines() (it breaks at form feed, \x1c-\x1e, \x85, U+2028/9; rope's and the ast's line numbers count \n only)."
+EXPLANATION += " R04.10: inside the loop over the files of a refactoring no handler swallows an error (a file is never silently left out of a multi-file change)."
+EXPLANATION += " R04.11: program text that is moved is not whitespace-normalised (the result of `\" \".join(text.split())` is only ever compared, never emitted)."
 ASSUMPTIONS = ["alias tracking is flow-insensitive (x = self.attr makes x an alias for the whole method)",
                "dict()/list()/set()/.copy()/sorted()/slicing create copies"]
 
@@ -303,5 +305,11 @@ def check(ctx, res) -> None:
     from .common import line_model_rule as _lm
 
     _lm(ctx, res, "R04.9", ('rope.refactor.inline', 'rope.refactor.functionutils', 'rope.refactor.move', 'rope.refactor.importutils'))
+    from .common import per_file_no_skip_rule as _pf
+
+    _pf(ctx, res, "R04.10", ('rope.refactor.inline',))
+    from .common import no_whitespace_normalisation_rule as _wn
+
+    _wn(ctx, res, "R04.11", ('rope.refactor.inline', 'rope.refactor.functionutils', 'rope.refactor.sourceutils', 'rope.base.worder'))
 
 
